@@ -21,7 +21,10 @@ if hasattr(mod, "setup"): mod.setup(ctx)
 case = json.load(open(a.case))
 case = case.get("case", case)
 ctx.begin(case)
-mod.run_case(ctx, case)
+try:
+  mod.run_case(ctx, case)
+except Exception as e:   # as tflv.shard.drive does: an exception escaping a case is a reported violation
+  ctx.exception("harness/exception", e)
 for v in ctx.violations:
   print("FAIL", v["site"], v["msg"], "finding=", v["finding"])
 print("events", dict(ctx.events))
